@@ -138,6 +138,19 @@ impl Endpoint {
         }
         out
     }
+    /// The oldest complete frame the node has written, if any (one at a time).
+    pub fn read_frame(&self) -> Option<Vec<u8>> {
+        let mut p = self.from_node.0.lock().unwrap();
+        if p.buf.len() < 4 {
+            return None;
+        }
+        let len = u32::from_be_bytes([p.buf[0], p.buf[1], p.buf[2], p.buf[3]]) as usize;
+        if p.buf.len() < 4 + len {
+            return None;
+        }
+        p.buf.drain(..4);
+        Some(p.buf.drain(..len).collect())
+    }
     /// Number of bytes written by the node and not yet consumed by `read_frames`.
     pub fn unread(&self) -> usize {
         self.from_node.0.lock().unwrap().buf.len()
